@@ -820,9 +820,52 @@ func (c *Ctx) retainsParam(f *types.Func, i int, depth int) bool {
 	}
 	p := sig.Params().At(i)
 	info := fi.Info()
+	// the parameter and the locals that hold it: x := p, xs := []*T{p}, xs = append(xs, p)
+	holds := map[types.Object]bool{p: true}
+	var carries func(e ast.Expr) bool
+	carries = func(e ast.Expr) bool {
+		switch x := ast.Unparen(e).(type) {
+		case *ast.Ident:
+			return holds[info.ObjectOf(x)]
+		case *ast.CompositeLit:
+			for _, el := range x.Elts {
+				if kv, ok := el.(*ast.KeyValueExpr); ok {
+					el = kv.Value
+				}
+				if carries(el) {
+					return true
+				}
+			}
+		case *ast.CallExpr:
+			if id, ok := ast.Unparen(x.Fun).(*ast.Ident); ok && id.Name == "append" {
+				for _, a := range x.Args {
+					if carries(a) {
+						return true
+					}
+				}
+			}
+		}
+		return false
+	}
+	for changed := true; changed; {
+		changed = false
+		ast.Inspect(fi.Decl.Body, func(n ast.Node) bool {
+			if as, ok := n.(*ast.AssignStmt); ok && len(as.Lhs) == len(as.Rhs) {
+				for k, l := range as.Lhs {
+					if id, ok := ast.Unparen(l).(*ast.Ident); ok {
+						if o := info.ObjectOf(id); o != nil && !holds[o] && carries(as.Rhs[k]) {
+							holds[o] = true
+							changed = true
+						}
+					}
+				}
+			}
+			return true
+		})
+	}
 	isP := func(e ast.Expr) bool {
 		id, ok := ast.Unparen(e).(*ast.Ident)
-		return ok && info.ObjectOf(id) == p
+		return ok && holds[info.ObjectOf(id)]
 	}
 	hit := false
 	ast.Inspect(fi.Decl.Body, func(n ast.Node) bool {
